@@ -366,6 +366,11 @@ def check_ops(ctx, m, src, cfg, rng, tautomer_fix_ok):
                 if d and all(x.startswith('stereo') for x in d) and (SY.has_equivalent_substituents(a) or T.ring_diene_ct(a)):
                     ctx.exclude('pseudo-asymmetric-labels', {'smiles': src})
                     break
+                if name in ('canonicalize', 'standardize') and any(len(r_) == 4 and any(m._atoms[x].hybridization in (2, 3, 4) for x in r_) for r_ in m.sssr):
+                    # recorded gap of C05 (biphenylene-type systems): kekule() may return the form whose four-membered ring holds the double
+                    # bonds, which thiele() does not aromatise; which form comes out follows the numbering
+                    ctx.exclude('gap-unsaturated-four-membered-ring', {'smiles': src, 'op': name})
+                    break
                 tag = ''
                 if name in ('standardize', 'canonicalize', 'fix_resonance') and several_resonance_ends(m):
                     # recorded finding: with three or more atoms that can take or give the charge, fix_resonance() follows the first path
